@@ -58,6 +58,21 @@ impl Net {
     pub fn in_edges(&self, v: usize) -> Vec<usize> {
         (0..self.m()).filter(|e| self.edges[*e].1 == v).collect()
     }
+    /// deterministic index derived from the content (FNV-1a); used to rotate covering subsets of configurations
+    pub fn hash_idx(&self) -> u64 {
+        let mut h: u64 = 0xcbf29ce484222325;
+        let mut mix = |x: u64| {
+            h ^= x;
+            h = h.wrapping_mul(0x100000001b3);
+        };
+        mix(self.n as u64);
+        for (s, d, l) in self.edges.iter() {
+            mix(*s as u64);
+            mix(*d as u64 + 17);
+            mix(l.to_bits());
+        }
+        h >> 8
+    }
     /// size used to order counterexamples: fewer vertices, then fewer edges, then shorter lengths
     pub fn size(&self) -> u64 {
         (self.n as u64) * 1_000_000
